@@ -97,9 +97,27 @@ def configurations(repo: Repo, func: FuncInfo, tier="quick", modes=("vac", "T", 
             yield label, facts, {"basis": basis, "mode": mode, "programme": prog, "initial_permeances": init, "units": us}
 
 
+_KNOWN = None
+
+
+def known_functions():
+    """Functions that existed when the checks were last validated on the clean tree. A function that is not in this list was
+    introduced by a later change (typically an extracted helper); it is inlined so that the refactoring stays invisible."""
+    global _KNOWN
+    if _KNOWN is None:
+        import json, os
+        try:
+            with open(os.path.join(os.path.dirname(os.path.abspath(__file__)), "floors.json")) as f:
+                _KNOWN = set(json.load(f).get("known_functions", []))
+        except FileNotFoundError:
+            _KNOWN = set()
+    return _KNOWN
+
+
 def make_config(facts, extra_inline=(), ret_summary=None, canon_arg=None) -> Config:
     inl = set(INLINE) | set(extra_inline)
-    return Config(facts=facts, inline=lambda f: f.qualname in inl,
+    known = known_functions()
+    return Config(facts=facts, inline=lambda f: f.qualname in inl or (bool(known) and (f.module.name + ":" + f.qualname) not in known),
                   str_domains={"*.units": UNITS, "*.type": ("weight", "molar")},
                   ret_summary=ret_summary, canon_arg=canon_arg)
 
